@@ -70,6 +70,9 @@ class WriteExtractor:
                     ops.append((nm, mc["path"], mc["recv_ty"].lstrip("&")))
                     cur = mc["recv"]
                     continue
+                if nm in ("as_slice", "as_ref", "iter", "to_owned", "borrow") and not mc["args"]:
+                    cur = mc["recv"]
+                    continue
                 return {"kind": "expr", "text": H.short(cur), "ops": ops}
             if t == "call":
                 p = H.call_path(cur) or ""
@@ -270,6 +273,11 @@ class WriteExtractor:
         if H.is_mcall(ie) and H.mcall(ie)["name"] in ("iter", "iter_mut"):
             arr_path = self.path_of(H.mcall(ie)["recv"], env)
             rty = H.mcall(ie)["recv_ty_unadj"] or H.mcall(ie)["recv_ty"]
+        # the desugared pattern is `Some(i)`
+        if H.tag(pat) == "ps" and pat[1].endswith("::Some") and pat[2]:
+            pat = pat[2][0][1]
+        elif H.tag(pat) == "ts" and pat[1].endswith("::Some") and pat[2]:
+            pat = pat[2][0]
         if H.tag(pat) == "bind" and arr_path is not None:
             env2[pat[1]] = arr_path + ("[]",)
         inner = self.visit(body, env2)
